@@ -579,6 +579,7 @@ pub struct Snap {
     pub timeout_ms: i64,
     pub sock_backoff: Vec<bool>,
     pub sock_expired: Vec<bool>,
+    pub sock_remain_ms: Vec<i64>,
     pub wq: Vec<String>,
     pub counter: Vec<i64>,
     pub chan: Vec<i64>,
@@ -1282,6 +1283,7 @@ impl Sim {
             timeout_ms: a.timeout_ms,
             sock_backoff: a.sock_backoff,
             sock_expired: a.sock_expired,
+            sock_remain_ms: a.sock_remain_ms,
             wq,
             exited: self.exited,
             panicked: self.panicked.clone().unwrap_or_default(),
